@@ -341,3 +341,28 @@ Definition row_eqb (a : list Z) (b : list Z) : bool :=
   Nat.eqb (length a) (length b) && forallb (fun p => Z.eqb (fst p) (snd p)) (combine a b).
 Definition pnr_count (samples : list (list Z)) (nidx : list Z) : Z :=
   fold_right (fun row acc => ((if row_eqb row nidx then 1 else 0) + acc)%Z) 0%Z samples.
+
+(* -------------------------------------------------------------------------------------- *)
+(* BaseBosonicState.quad_expectation(mode, phi): the state is a weighted sum of Gaussians
+   (weight, means in (x0,p0,x1,p1,..) order, covariance);  c = cos phi, s = sin phi.
+     mean = sum_i w_i m_i ;  var = sum_i w_i v_i + sum_i w_i m_i^2 - mean^2
+   with m_i, v_i the rotated first / second moment of component i restricted to `mode`. *)
+Section BosonicQuad.
+  Variable K : Type.
+  Variables (k0 : K) (kadd kmul ksub : K -> K -> K).
+  Definition bcomp : Type := (K * list K * list (list K))%type.
+  Definition bweight (cp : bcomp) : K := fst (fst cp).
+  Definition bsum (l : list K) : K := fold_right kadd k0 l.
+  Definition b_mphi (c s : K) (mode : nat) (cp : bcomp) : K :=
+    let m := snd (fst cp) in
+    kadd (kmul c (nth (2 * mode) m k0)) (kmul s (nth (2 * mode + 1) m k0)).
+  Definition b_vphi (c s : K) (mode : nat) (cp : bcomp) : K :=
+    let e := fun i j => nth j (nth i (snd cp) []) k0 in
+    let a := 2 * mode in let b := 2 * mode + 1 in
+    kadd (kmul (kadd (kmul c (e a a)) (kmul s (e b a))) c) (kmul (kadd (kmul c (e a b)) (kmul s (e b b))) s).
+  Definition bosonic_quad (c s : K) (mode : nat) (comps : list bcomp) : K * K :=
+    let mean := bsum (map (fun cp => kmul (bweight cp) (b_mphi c s mode cp)) comps) in
+    let v1 := bsum (map (fun cp => kmul (bweight cp) (b_vphi c s mode cp)) comps) in
+    let v2 := bsum (map (fun cp => kmul (bweight cp) (kmul (b_mphi c s mode cp) (b_mphi c s mode cp))) comps) in
+    (mean, ksub (kadd v1 v2) (kmul mean mean)).
+End BosonicQuad.
